@@ -58,6 +58,7 @@ func hookByName(n string) hookDef {
 }
 
 type driver struct {
+	envfault bool // the state was built with an environment fault (configuration missing, price inactive, ...)
 	state string // name of the state the following nodes belong to (copied into args)
 	log   *sim.Log
 	root  int
@@ -232,13 +233,21 @@ func Main(args []string) int {
 				continue
 			}
 			d.state = sb.name
+			d.envfault = envFaultStates[sb.name]
 			stNode := d.log.Add(d.root, run, "State", map[string]interface{}{"name": sb.name, "notes": w.notes, "params": p},
 				nil, map[string]interface{}{"digest": w.Digest(), "h": w.Height})
 			d.stats["states"]++
+			for i, hr := range w.hist {
+				d.log.Add(stNode, run, "Block", map[string]interface{}{"state": d.state, "n": -(i + 1), "dt": 0, "h": 0, "hist": hr.What},
+					map[string]interface{}{"returned": hr.Returned, "panicS": hr.PanicS, "panicK": panicKind(hr.PanicS)},
+					map[string]interface{}{"digest": ""})
+				d.stats["histSteps"]++
+			}
 			for _, hn := range hooks {
 				d.hookCases(w, stNode, run, hookByName(hn))
 			}
 			d.items(w, stNode, run)
+			d.facets(w, stNode, run)
 			d.blocks(w, stNode, run, []time.Duration{6 * time.Second, 6 * time.Second, time.Duration(p.Gap) * time.Second}, nil)
 			d.blocks(w, stNode, run, []time.Duration{6 * time.Second, 6 * time.Second}, []int64{14400 * (1 + w.Height/14400), 0})
 		}
